@@ -1,13 +1,20 @@
 use exmex::prelude::*;
-use exmex::{parse_val, Val};
+use std::time::Instant;
 fn main() {
-    for (text, x) in [("x/2", 1.0), ("3 ^ ((0.5) if x < 0 else 2)", 1.0), ("x/2.0", 1.0), ("(x*x if x > 1.0 else 2.0*x) + 1", 2.0), ("(x*x if x > 1.0 else 2.0*x) + 1", 0.5), ("x^2", 3.0), ("2.0^x", 1.0), ("sin(x)*3", 0.0), ("(1/2)*x", 2.0), ("x*(7/2)", 2.0),("sqrt(x)",4.0),("log10(x)",4.0), ("1/x", 2.0), ("(x if x<1 else 2*x) if x<3 else 0.5*x", 2.0), ("x^x", 2.0),("y if 1.5 != 1 else x*y", 2.0)] {
-        let e = parse_val::<i32, f64>(text).unwrap();
-        let n = e.var_names().len();
-        let d = e.clone().partial(0);
-        match d {
-            Ok(d) => println!("{text:45} d/dx = `{}`  at {x}: {:?}", d.unparse(), d.eval(&vec![Val::Float(x); n])),
-            Err(er) => println!("{text:45} ERR {}", er.msg()),
+    for op in ["^", "*", "/"] {
+        for n in [4usize, 6, 8, 10, 12, 14] {
+            let text = vec!["x"; n].join(op);
+            let e = exmex::FlatEx::<f64>::parse(&text).unwrap();
+            let t = Instant::now();
+            let d = e.partial(0);
+            let el = t.elapsed();
+            println!("{op} n={n}: {:?} len={}", el, d.map(|d| d.unparse().len()).unwrap_or(0));
+            if el.as_secs() > 5 { break; }
         }
     }
+    let text = "sin(".repeat(14) + "x" + &")".repeat(14);
+    let e = exmex::FlatEx::<f64>::parse(&text).unwrap();
+    let t = Instant::now();
+    let d = e.partial(0).unwrap();
+    println!("sin nest 14: {:?} len={}", t.elapsed(), d.unparse().len());
 }
